@@ -1150,8 +1150,50 @@ def interleaved_collect(proc):
 
 
 # =====================================================================================================
+def c01r_source_tie(ctx):
+    """coq/C01R_Model.v is a statement-by-statement transcription of six .pyx functions (Cython cannot be run
+    here).  Recompute the hash of their normalised text from the CURRENT source; a mismatch means the real-number
+    theorems speak about an older text: broken obligation (the violation search is the existing bit-for-bit
+    comparison of the re-interpreted .pyx text with the compiled kernels and the area oracles)."""
+    import hashlib, json, re
+    from .core import COQ, REPO
+
+    def funcs(path):
+        parts = re.split(r'(?m)^(?=(?:cdef|def|cpdef)\s)', path.read_text())
+        out = {}
+        for p in parts:
+            m = re.match(r'(?:cdef|def|cpdef)\s+(?:[\w\.\[\], ]+\s+)?(\w+)\s*\(', p)
+            if m:
+                out[m.group(1)] = p
+        return out
+
+    def norm(src):
+        src = re.sub(r'"""(?:.|\n)*?"""', '', src)
+        lines = [re.sub(r'#.*$', '', l).strip() for l in src.splitlines()]
+        return '\n'.join(re.sub(r'\s+', ' ', l) for l in lines if l)
+    want = json.loads((COQ / 'C01R_source_hashes.json').read_text())['functions']
+    cache, bad = {}, []
+    for key, h in want.items():
+        rel, name = key.split('::')
+        try:
+            if rel not in cache:
+                cache[rel] = funcs(REPO / rel)
+            got = hashlib.sha256(norm(cache[rel][name]).encode()).hexdigest()
+        except Exception as e:  # file or function missing
+            got = 'unreadable: ' + repr(e)[:80]
+        if got != h:
+            bad.append({'function': key, 'expected': h, 'found': got})
+    ctx.stat('c01r', 'pyx-functions-hashed', len(want))
+    ctx.cov.setdefault('translated_spans', []).append({'file': 'coq/C01R_Model.v', 'tie': 'sha256 of normalised .pyx function text',
+                                                        'functions': sorted(want), 'stale': [b['function'] for b in bad]})
+    if bad:
+        ctx.broken_obligation('C01R-transcription-stale', {'changed_pyx_functions': bad})
+
+
 def run(ctx):
-    ctx.build_with_translator(FILES)
+    ctx.build_with_translator(FILES, extra_files=['C01R_Model.v', 'C01R_Proofs.v', 'C01R_Properties.v'],
+                              extra_obligation_files=['C01R_Properties.v'])   # exact circle kernel = area, over R
+    c01r_source_tie(ctx)
     rng = ctx.rng
     quick = ctx.tier == 'quick'
     ctx.cov['rule'] = (
